@@ -153,7 +153,7 @@ def explore(run, n_hist, rec_prefix, weights=None, seed_off=0, oracle=True):
 SWEEP_DOMAIN = {
     "model_key": ["hertz_para", "hertz_cone", "no_such_model"],
     "range_x": [[0, 0], (0, 0), [0.0, 0.0], [-2e-6, 1e-6], [-1e-6, 1e-6],
-                [-2e-6, 0], [0, 0, 0]],
+                [-2e-6, 0], [0, 0, 0], [3e-6, 1e-6], [1e-6, -2e-6]],
     "range_type": ["absolute", "relative cp", "relative"],
     "segment": [0, 1, "approach", "retract", True, False, 0.0],
     "weight_cp": [1e-6, 5e-7, 0, False, 2e-6, 1],
